@@ -22,7 +22,7 @@ CHECKS = {
          "For each generated stream every byte offset and every way an io.Reader may report the failure is injected (after transient faults the transport resumes delivering in half of the executions); the number of messages reported complete must lie between what had arrived before the failing read and what the cut contains, each byte-identical, then a permanent error; read through ReadMessage, NextReader (a failed reader is tried again) or JoinMessages.",
          "streams/chunkings/read programs sampled; cut offsets x fault kinds exhaustive per stream; DEFLATE BFINAL early completion is not judged", "3/C05"),
  "C06": ("exploration", "runtime monitoring: limit model over generated histories and fragmentations, decoded 1009 close, heap-allocation counter probe",
-         "Seeded exploration of (L, read history, target size around L / huge claimed lengths / compressed targets whose wire size is around L, crossing frame, controls, chunking); within-limit messages must be readable whatever the history, over-limit ones refused before the crossing frame's payload with ErrReadLimit + 1009; allocation must not grow with the claimed length; the limit may have been absent or larger earlier on the connection or be re-set (same value) between messages and between Reads; a refused reader delivers nothing on retry.",
+         "Seeded exploration of (L, read history, target size around L / huge claimed lengths / compressed targets whose wire size is around L, crossing frame, controls, chunking); within-limit messages must be readable whatever the history, over-limit ones refused before the crossing frame's payload with ErrReadLimit + 1009; allocation must not grow with the claimed length; the limit may have been absent or larger earlier on the connection or be re-set (same value) between messages and between Reads; a refused reader delivers nothing on retry; a crossing frame is refused although its payload never arrives; application close handlers never run on a breach.",
          "limit counted in wire payload bytes; runtime.MemStats.TotalAlloc as allocation counter", "3/C06"),
  "C08": ("exploration", "runtime monitoring: handler/data event log with one counter vs. wire order of an independently encoded stream; decoded pong/close echoes; complete enumeration of acceptable close codes",
          "All 2009 acceptable close codes x reason lengths x roles are enumerated; seeded streams put control frames at every kind of position; a concurrent family checks pong payloads while other goroutines use WriteControl; a third of the client-role executions build the connection with the real Dialer.Dial with the stream glued behind the 101 reply; a fifth run under a read limit every message meets exactly; read through NextReader, ReadMessage or JoinMessages; one stream in 25 carries a run of 100-1500 control frames; handler calls must match the wire exactly once, in order, correctly placed relative to delivered bytes; echoes decoded from the write log; handler errors permanent.",
@@ -49,7 +49,7 @@ CHECKS = {
          "Origins are built from the Host by identity/case variation (must be upgraded) or by edits, label changes, port changes, userinfo/path/fragment tricks, Unicode look-alikes, different invalid bytes, junk (must get 403); extra request headers and the deployment context (Unix-socket listener, TLS, remote address, CORS headers pre-set on the ResponseWriter) are varied and must not matter.",
          "construction guarantees the expected answer; percent-encoded and scheme-less origins not generated", "3/C13"),
  "C14": ("exploration", "runtime monitoring: Dial over a scripted conn; the request it writes is parsed by a strict independent parser; generated reply plans (stale/wrong Accept, status, token lists, bodies, malformed heads)",
-         "Seeded exploration of URLs with known expected request target, Dialer settings, caller headers and reply plans; request line/Host/protocol headers/key freshness judged from the wire; Dial must connect iff all four reply conditions hold for this request's key, otherwise ErrBadHandshake with status, headers and <=1024 body bytes (also when the body is cut by a reset or timeout); a cookie jar and several caller Cookie values must coexist; one header map dialed repeatedly is neither modified nor changes the next request.",
+         "Seeded exploration of URLs with known expected request target, Dialer settings, caller headers and reply plans; request line/Host/protocol headers/key freshness judged from the wire; Dial must connect iff all four reply conditions hold for this request's key, otherwise ErrBadHandshake with status, headers and <=1024 body bytes (also when the body is cut by a reset or timeout, also with every httptrace hook set); a cookie jar and several caller Cookie values must coexist; one header map dialed repeatedly is neither modified nor changes the next request.",
          "strict parser internal/httpx; key distinctness checked per worker process", "3/C14"),
  "C15": ("exploration", "runtime monitoring: real Dialer against real Upgrader over an in-memory transport with the wire watched for RSV1; raw extension offers against the Upgrader; scripted 101 replies against the Dialer; behavioural probes (does it send RSV1, does it accept a compressed frame)",
          "All four EnableCompression pairs are connected and generated toggle/level/message sequences (WriteMessage, closed writers, writers left to the implicit close, toggles with a writer open) cross in both directions; announcement only if offered and enabled; compression in use iff the 101 carried both no_context_takeover parameters; endpoints agree (probed with single-frame and fragmented compressed messages incl. empty fragments; the offer may also come from the application's request header).",
